@@ -4,7 +4,7 @@
    signatures share an identifier only if H itself collides on the two exhibited
    streams.                                                                      *)
 From Coq Require Import ZArith NArith List Bool.
-From XV Require Import core.Value model.Hash model.Ser model.Deep proofs.Ser_lemmas proofs.Tok_lemmas proofs.Deep_lemmas.
+From XV Require Import core.Value model.Hash model.Ser model.Deep proofs.Ser_lemmas proofs.Tok_lemmas proofs.Deep_lemmas proofs.OwnMark_lemmas.
 Import ListNotations.
 
 (* the encoding of a parameter value is uniquely readable: for every well-formed
@@ -115,3 +115,13 @@ Theorem C03_signature_encoding_injective_per_class : forall s1 s2,
   wf_sig s1 -> wf_sig s2 -> (ss_tid s1 = ss_tid s2 -> same_decl s1 s2) -> enc_sig s1 = enc_sig s2 -> s1 = s2.
 Proof. exact enc_sig_inj_tid. Qed.
 Print Assumptions C03_signature_encoding_injective_per_class.
+
+(* ---- the recorded open finding C03:collision:init-tasks-of-producing-task, in the model: the clause "the task that
+   produced an embedded task output" holds for the RAW identity of the producing task only; two submissions of one task
+   that differ by their init tasks are two jobs, and what embeds their outputs is one configuration.               *)
+Theorem C03_init_tasks_of_producer_refuted :
+  full_pure (fun b => b) it_classes (it_heap 1) 9 1 <> full_pure (fun b => b) it_classes (it_heap 2) 9 1
+  /\ (exists d, full_pure (fun b => b) it_classes (it_heap 1) 9 3 = Ok d
+                /\ full_pure (fun b => b) it_classes (it_heap 2) 9 3 = Ok d).
+Proof. exact init_tasks_of_producer_collide. Qed.
+Print Assumptions C03_init_tasks_of_producer_refuted.
